@@ -220,7 +220,7 @@ def hint_values(name, quick):
     # values above the admissible range are run as concrete hints too (they must never complete): concrete
     # hints fold the exponentiation chain and are decided reliably, unlike the symbolic out-of-range run
     if quick:
-        return sorted({lo, 1, hi // 2, hi - 1, hi, hi + 1, 63, 64}) + [None]
+        return sorted({lo, 1, hi // 2, hi - 1, hi, hi + 1, 63, 64})
     return list(range(lo, 66)) + [2**32, P - 1] + [None]
 
 
